@@ -271,6 +271,20 @@ func runC19(w *World) *Result {
 		} else {
 			r.Bad("R-C19-write", "write:data", w.Pos(m.call.Pos()), fmt.Sprintf("the written bytes are not exactly the Transpile result (depends on %v)", dn))
 		}
+		// the output file only ever appears complete: either it is written under another name
+		// and renamed into place, or an in-place write cannot fail half-way – the latter cannot
+		// be shown, so an in-place os.WriteFile on the final path is reported
+		renamed := false
+		for _, m2 := range muts {
+			if m2.name == "os.Rename" && len(m2.call.Call.Args) == 2 && sameRoot(m2.call.Call.Args[0], m.call.Call.Args[0]) {
+				renamed = true
+			}
+		}
+		if renamed {
+			r.Ok("R-C19-write", "write:in-place", w.Pos(m.call.Pos()), "the bytes are written under a temporary name and renamed into place")
+		} else {
+			r.Bad("R-C19-write", "write:in-place", w.Pos(m.call.Pos()), "the output file is truncated and rewritten in place: a write that fails half-way (file size limit, quota, full disk) exits non-zero but leaves a truncated file where the previous output was")
+		}
 		// path argument
 		ps := newDeepSrcSet(w)
 		backward(m.call.Call.Args[0], ps, map[ssa.Value]bool{})
